@@ -8,5 +8,6 @@ CONSTANTS
   DEV_CopyMisMaps = FALSE
   DEV_PickleNoRebuild = FALSE
   DEV_AddRebuildsFirst = TRUE
+  DEV_DiscHalfRadius = FALSE
 INVARIANT TypeOK
 INVARIANT IndexMirrors
